@@ -306,6 +306,20 @@ func (A *audit) minLenCtx(fn *ssa.Function, xt *Term, fs factSet, need int64, de
 	})
 }
 
+// diffNonNegCtx: for lt = a - b, the facts here (or at every caller) give b <= a.
+func (A *audit) diffNonNegCtx(fn *ssa.Function, lt *Term, fs factSet, depth int) bool {
+	a, b := lt.Args[0], lt.Args[1]
+	if fs.has(Fact{tLt(b, a), true}) || fs.has(Fact{tLe(b, a), true}) || fs.has(Fact{tLe(a, b), false}) || fs.has(Fact{tLt(a, b), false}) {
+		return true
+	}
+	if !lt.contains(func(u *Term) bool { return u.Op == "param" }) {
+		return false
+	}
+	return A.atAllCallers(fn, depth, func(caller *ssa.Function, cfs factSet, m map[string]*Term, d int) bool {
+		return A.diffNonNegCtx(caller, lt.subst(m), cfs, d)
+	})
+}
+
 // wellformedCtx: ok(mode.Wellformed(xt)) holds here or at every caller.
 func (A *audit) wellformedCtx(fn *ssa.Function, xt *Term, fs factSet, depth int) bool {
 	for _, call := range fs.findOK(func(call *Term) bool { return call.S == "invoke:cbor.DecMode.Wellformed" }) {
@@ -725,8 +739,8 @@ func runC06(r *Report, tier string) {
 					why := "length " + lt.String() + " is non-negative by construction"
 					fs := P.factsBefore(in)
 					if !okLen && lt.Op == "binop" && lt.S == "-" {
-						// a - b under b < a
-						if fs.has(Fact{tLt(lt.Args[1], lt.Args[0]), true}) || fs.has(Fact{tLe(lt.Args[1], lt.Args[0]), true}) || fs.has(Fact{tLe(lt.Args[0], lt.Args[1]), false}) || fs.has(Fact{tLt(lt.Args[0], lt.Args[1]), false}) {
+						// a - b under b < a (here, or at every caller of an unexported helper)
+						if A.diffNonNegCtx(fn, lt, fs, 0) {
 							okLen, why = true, "length "+lt.String()+" under the dominating comparison of its operands"
 						}
 					}
